@@ -372,3 +372,149 @@ def unname(t, rec):
                 res = CT.CONTRACTS[key](Interp(), *args2)
                 return res if not isinstance(res, tuple) else res[named.index(t)]
     return t
+
+
+# ---------------------------------------------------------------------------
+# forward module, SYMBOLIC number of levels (level-loop invariant)
+# ---------------------------------------------------------------------------
+class _Calls:
+    def __init__(s, calls):
+        s.calls = calls
+
+
+def g_dtcwt_forward_symJ(o_dim=2, ri_dim=-1, skip=False, include=False, mode='symmetric', canary=False):
+    """DTCWTForward.__init__ + forward with a SYMBOLIC number of levels J >= 1 (uniform skip_hps / include_scale flags).
+    Level-loop invariant, proved by the INIT / STEP / EXIT obligations below:
+        before iteration j (1 <= j < J):  `low` is the low-pass of level j, a tensor with EVEN extents;
+                                          band-pass list[k], k < j, holds the result of the k-th level application
+        STEP  (generic j, arbitrary even-sized low-pass A): exactly one FWD_J2PLUS.apply, on ext_mult4(A) with the four
+              q-shift analysis filters, skip flag, layout and mode of the module; its band-pass result is stored at index j of
+              the band-pass list (and its low-pass at index j of the scale list iff include_scale), nothing else is written;
+              the new `low` is its low-pass result, again with even extents
+        INIT  the code before the loop performs the reference level-1 step and establishes the invariant for j = 1
+        EXIT  what is returned is (the loop-carried low-pass | the scale list, the band-pass list)
+    Together with the contracts of FWD_J1 / FWD_J2PLUS (C03) this is the reference recursion for every J."""
+    import ast as _ast
+    from .modules_dwt import loop_state
+    Jv = z3.Int('J')
+    oid = 'DTCWTForward[J symbolic,o=%d,ri=%d,skip=%s,include=%s]' % (o_dim, ri_dim, skip, include)
+    base = BASE + [Jv >= 1]
+    mi = CD.MODE2INT[mode]
+
+    def run():
+        bi, qs = tables()
+        rc = Recorder()
+        it = Interp(contracts=module_callees_rec(bi, qs, rc))
+        side = {}
+
+        def rule(it_, node, rng, env):
+            c = ctx()
+            tv, _ = loop_state(node, env, 'low', None)
+            if tv is None:
+                raise Unsupported('level loop without a carried tensor')
+            written = set()
+            for st in node.body:
+                for q in _ast.walk(st):
+                    if isinstance(q, _ast.Subscript) and isinstance(q.ctx, _ast.Store) and isinstance(q.value, _ast.Name):
+                        written.add(q.value.id)
+            lists = {k: env[k] for k in sorted(written) if isinstance(env.get(k), PList)}
+            side['init'] = {'low': env[tv], 'lists': {k: list(v.writes) for k, v in lists.items()}, 'ncalls': len(rc.calls), 'range': (rng.lo, rng.hi)}
+            j = fresh_int('j')
+            c.assume(z3.And(j >= 1, j < I(Jv)))
+            ra, ca = fresh_int('ra'), fresh_int('ca')
+            c.assume(z3.And(ra >= 1, ca >= 1))
+            T0 = env[tv]
+            A = CD.data_tensor('A', (T0.shape[0], T0.shape[1], 2 * ra, 2 * ca))
+            env[tv] = A
+            w0 = {k: len(v.writes) for k, v in lists.items()}
+            n0 = len(rc.calls)
+            before = dict(env)
+            it_.assign(node.target, j, env)
+            it_.run(node.body, env)
+            side['step'] = {'j': j, 'A': A, 'calls': rc.calls[n0:], 'writes': {k: v.writes[w0[k]:] for k, v in lists.items()}, 'low': env[tv],
+                            'other': [k for k in env if k in before and env[k] is not before[k] and k != tv and k not in lists
+                                      and not isinstance(node.target, _ast.Name) or (k in before and env[k] is not before[k] and k != tv and k not in lists
+                                                                                     and k != getattr(node.target, 'id', None) and k not in ('r', 'c', 'h'))]}
+            for k, v in lists.items():
+                del v.writes[w0[k]:]
+            rj, cj = fresh_int('rJ'), fresh_int('cJ')
+            c.assume(z3.And(rj >= 1, cj >= 1))
+            AJ = CD.data_tensor('AJ', (T0.shape[0], T0.shape[1], 2 * rj, 2 * cj))
+            env[tv] = AJ
+            side['exit'] = {'low': AJ, 'lists': lists, 'tv': tv}
+        it.loop_contracts[((T2, 'DTCWTForward.forward'), 0)] = rule
+        kw = dict(J=Jv, o_dim=o_dim, ri_dim=ri_dim, mode=mode, biort='near_sym_a', qshift='qshift_a', skip_hps=skip, include_scale=include)
+        self = prims.instantiate(it, RepoClass(T2, 'DTCWTForward'), [], kw)
+        x = CD.data_tensor('x', (Bn, C, H, W))
+        out = it.call(T2, 'DTCWTForward.forward', [self, x], {})
+        return out, rc, side, (self, x), bi, qs
+    obs = []
+    info = {'paths': 0}
+    for k, (c, res) in enumerate(explore(run, base, 4000)):
+        CUR.ctx = c
+        if c.solver.check() == z3.unsat:
+            continue
+        pid = '%s/path%d' % (oid, k)
+        info['paths'] += 1
+        if res[0] == 'raise':
+            obs.append(Ob(pid + '/unexpected-raise', 'POST', 'refuted', 'path', 0, {'what': '%s: %s' % (res[1].kind, res[1].msg), 'model': {}}))
+            continue
+        out, rc, side, owned, bi, qs = res[1]
+        self, x = owned
+        obs += verify.frame_obs(pid, c, owned)
+        if 'init' not in side:
+            # J == 1 on this path: no loop iteration is possible; compare with the one-level reference
+            obs.append(solve.prove(pid + '/loop-not-entered-only-when-J==1', 'POST', c.pc, Jv == 1, MV + [Jv]))
+            continue
+        ini, stp, ext = side['init'], side['step'], side['exit']
+        # ---- INIT: the reference level-1 step
+        rs = Recorder()
+        lows1, highs1 = ref_forward(Interp(), rs, x, bi, qs, 1, [skip], o_dim, ri_dim, mode)
+        obs += compare_records(pid + '/INIT', _Calls(rc.calls[:ini['ncalls']]), rs, c.pc)
+        ok = len(rc.calls[:ini['ncalls']]) == 1
+        if ok:
+            named = rc.calls[0][3]
+            ok_low = ini['low'] is named[0]
+            hw = [w for w in ini['lists'].get('highs', [])] if 'highs' in ini['lists'] else None
+            lists0 = ini['lists']
+            band = [nm for nm, ws in lists0.items() if any(v is named[1] for _, v in ws)]
+            obs.append(Ob(pid + '/INIT/low==lowpass-of-level-1', 'INV', 'proved' if ok_low else 'refuted', 'structural', 0))
+            okb = len(band) == 1 and all(simp(I(i_)) == 0 for i_, v in lists0[band[0]] if v is named[1]) if band else False
+            obs.append(Ob(pid + '/INIT/band-pass-list[0]==band-pass-of-level-1', 'INV', 'proved' if okb else 'refuted', 'structural', 0))
+            obs.append(solve.prove(pid + '/INIT/low-has-even-extents', 'INV', c.pc,
+                                   z3.And(I(ini['low'].shape[2]) % 2 == 0, I(ini['low'].shape[3]) % 2 == 0, I(ini['low'].shape[2]) >= 2, I(ini['low'].shape[3]) >= 2), MV + [Jv]))
+        obs.append(solve.prove(pid + '/INIT/loop-runs-over-levels-1..J-1', 'INV', c.pc, z3.And(I(ini['range'][0]) == 1, I(ini['range'][1]) == Jv), MV + [Jv]))
+        # ---- STEP
+        rs2 = Recorder()
+        it2 = Interp()
+        F2 = rs2.wrap(TFk + ':FWD_J2PLUS.apply', CT.FWD_J2PLUS_apply_contract, 1)
+        A4 = ext_mult4(stp['A'])
+        fa, fb = ('h0b', 'h0a') if canary else ('h0a', 'h0b')          # canary: tree a / tree b low-pass filters exchanged
+        F2(it2, A4, T(it2, qs[fa]), T(it2, qs['h1a']), T(it2, qs[fb]), T(it2, qs['h1b']), skip, o_dim, ri_dim, mi)
+        obs += compare_records(pid + '/STEP', _Calls(stp['calls']), rs2, c.pc)
+        if len(stp['calls']) == 1:
+            named = stp['calls'][0][3]
+            obs.append(Ob(pid + '/STEP/low==lowpass-result', 'INV', 'proved' if stp['low'] is named[0] else 'refuted', 'structural', 0))
+            bandlists = [nm for nm, ws in stp['writes'].items() if len(ws) == 1 and ws[0][1] is named[1]]
+            scal = [nm for nm, ws in stp['writes'].items() if len(ws) == 1 and ws[0][1] is named[0]]
+            empty = [nm for nm, ws in stp['writes'].items() if not ws]
+            okw = len(bandlists) == 1 and (len(scal) == 1 if include else len(scal) == 0) and len(bandlists) + len(scal) + len(empty) == len(stp['writes'])
+            obs.append(Ob(pid + '/STEP/writes[band-pass list[j] = band-pass result%s; nothing else]' % ('; scale list[j] = low-pass result' if include else ''),
+                          'INV', 'proved' if okw else 'refuted', 'structural', 0, {} if okw else {'writes': {k_: len(v) for k_, v in stp['writes'].items()}, 'model': {}}))
+            for nm in bandlists + scal:
+                obs.append(solve.prove(pid + '/STEP/%s-written-at-index-j' % nm, 'INV', c.pc, I(stp['writes'][nm][0][0]) == I(stp['j']), MV + [Jv]))
+            obs.append(solve.prove(pid + '/STEP/low-has-even-extents-again', 'INV', c.pc,
+                                   z3.And(I(stp['low'].shape[2]) % 2 == 0, I(stp['low'].shape[3]) % 2 == 0, I(stp['low'].shape[2]) >= 2, I(stp['low'].shape[3]) >= 2), MV + [Jv]))
+            side['band'] = bandlists[0] if bandlists else None
+            side['scale'] = scal[0] if scal else None
+        # ---- EXIT
+        ok = isinstance(out, tuple) and len(out) == 2
+        if ok:
+            want0 = ext['lists'].get(side.get('scale')) if include else ext['low']
+            ok = (out[0] is want0) and (out[1] is ext['lists'].get(side.get('band')))
+        obs.append(Ob(pid + '/EXIT[returns (%s, band-pass list)]' % ('scale list' if include else 'loop-carried low-pass'), 'POST',
+                      'proved' if ok else 'refuted', 'structural', 0))
+        obs.append(solve.prove(pid + '/EXIT/band-pass-list-has-J-entries', 'POST', c.pc,
+                               I(ext['lists'][side['band']].length()) == Jv if side.get('band') else z3.BoolVal(False), MV + [Jv]))
+        obs += solve.safety_obligations(pid, c, MV + [Jv])
+    return obs, info
